@@ -503,14 +503,14 @@ Lemma exec_event_RI nb md p s e m :
   md <> InConstruct ->
   RI nb s m ->
   (is_warm e = true -> clock s = m_w m /\ m_warm m = false) ->
-  (is_warm e = false -> PI (clock s) (m_w m) (warm_left m) (pend s)) ->
   (is_warm e = true -> PI (clock s) (m_w m) 0 (pend s)) ->
   exists l m', ntfs (fst (exec_event md p s e)) = rev l ++ ntfs s /\ mon_feed m l = Some m' /\
                RI nb (fst (exec_event md p s e)) m' /\
                trace (fst (exec_event md p s e)) = (e, clock s) :: trace s /\
+               ps (fst (exec_event md p s e)) = ps s /\
                (forall n, In n l -> n = NStopping \/ n = NWarmup (clock s)).
 Proof.
-  intros Hmd R Hw Hu Hw0. unfold exec_event. unfold is_warm in *.
+  intros Hmd R Hw Hw0. unfold exec_event. unfold is_warm in *.
   destruct (ev_h e) as [|h] eqn:Eh.
   - (* the warm-up event *)
     destruct (Hw eq_refl) as [Hc Hm]. specialize (Hw0 eq_refl).
@@ -521,7 +521,7 @@ Proof.
     split; [reflexivity|]. split.
     + cbn [mon_feed]. unfold mon_step. rewrite R1, R2, R3, R4, R5, Hm, R9. cbn.
       rewrite Hc, Z.eqb_refl. reflexivity.
-    + split; [|split; [reflexivity|intros n [<-|[]]; right; reflexivity]].
+    + split; [|split; [reflexivity|split; [reflexivity|intros n [<-|[]]; right; reflexivity]]].
       constructor; ssimpl; auto.
       apply Z.leb_le. lia.
   - (* a user event *)
@@ -530,11 +530,244 @@ Proof.
     { destruct R as [R1 R2 R3 R4 R5 R6 R7 R8 R9 R10 R11]. constructor; subst s1; ssimpl; auto. }
     pose proof (exec_actions_hstep md (body p h) s1) as Hh.
     destruct (RI_hstep nb s1 _ m R1 Hh) as [l [L1 [L2 L3]]].
-    exists l, m. split; [exact L1|]. split; [exact L2|]. split; [exact L3|]. split.
+    exists l, m. split; [exact L1|]. split; [exact L2|]. split; [exact L3|]. split; [|split].
     + rewrite (hs_trace _ _ Hh). reflexivity.
+    + rewrite (hs_ps _ _ Hh). reflexivity.
     + intros n Hn. left.
       destruct Hh as [_ _ _ _ _ _ _ _ _ [k [Hk _]] _].
       assert (E : rev l = repeat NStopping k).
       { subst s1. ssimpl. rewrite Hk in L1. apply app_inv_tail in L1. symmetry. exact L1. }
       apply in_rev in Hn. rewrite E in Hn. apply repeat_spec in Hn. exact Hn.
+Qed.
+
+(* ------------------------------------------------------------------ *)
+(** * The run loop *)
+
+Lemma set_stopping_RI nb s m : RI nb s m -> RI nb (set_rs RStopping s) m.
+Proof.
+  intros [R1 R2 R3 R4 R5 R6 R7 R8 R9 R10 R11]. constructor; ssimpl; auto.
+  intros _ H. unfold running in H. ssimpl. discriminate.
+Qed.
+
+Definition tc_part (s : sim) (e : ev) : list ntf :=
+  if ev_time e =? clock s then [] else [NTime (ev_time e)].
+
+(* one pass of the loop body: the notifications are an optional TIME_CHANGED
+   carrying the time of the event that is executed next, then what the event
+   itself causes (WARMUP at the warm-up event, STOPPING from handlers) *)
+Lemma take_event_RI p s e r m :
+  RI true s m -> pend s = e :: r -> beyond s e = false ->
+  exists l m',
+    ntfs (take_event p s e r) = rev l ++ rev (tc_part s e) ++ ntfs s /\
+    mon_feed m (tc_part s e ++ l) = Some m' /\
+    RI true (take_event p s e r) m' /\
+    trace (take_event p s e r) = (e, ev_time e) :: trace s /\
+    (forall n, In n l -> n = NStopping \/ n = NWarmup (ev_time e)).
+Proof.
+  intros R Hp Hb.
+  pose proof (ri_pi _ _ _ R) as Hpi. rewrite Hp in Hpi.
+  destruct (PI_pop _ _ _ _ _ Hpi) as [Hc [Hwm Hpi']].
+  assert (Hbd : ev_time e <= bound s).
+  { unfold beyond in Hb. apply orb_false_iff in Hb. destruct Hb as [Hb _].
+    destruct (Z.gtb_spec (ev_time e) (bound s)); [discriminate|lia]. }
+  (* the state and the monitor after the optional TIME_CHANGED and the clock update *)
+  set (s1 := if ev_time e =? clock (set_pend r s) then set_pend r s
+             else emit (NTime (ev_time e)) (set_pend r s)).
+  set (s2 := set_clock (ev_time e) s1).
+  set (m0 := if ev_time e =? clock s then m
+             else mkMon true (m_w m) true true false (m_warm m) false (Some (ev_time e))).
+  assert (F0 : mon_feed m (tc_part s e) = Some m0).
+  { unfold tc_part, m0. destruct (ev_time e =? clock s); [reflexivity|].
+    cbn [mon_feed]. unfold mon_step.
+    rewrite (ri_live _ _ _ R), (ri_sr _ _ _ R), (ri_run _ _ _ R), (ri_st _ _ _ R), (ri_er _ _ _ R).
+    rewrite (le_last_trans _ _ _ (ri_last _ _ _ R) Hc). reflexivity. }
+  assert (N2 : ntfs s2 = rev (tc_part s e) ++ ntfs s).
+  { unfold s2, s1, tc_part. ssimpl. destruct (ev_time e =? clock s); reflexivity. }
+  assert (W0 : warm_left m0 = warm_left m).
+  { unfold m0. destruct (ev_time e =? clock s); reflexivity. }
+  assert (R2 : RI true s2 m0).
+  { destruct R as [R1 R2 R3 R4 R5 R6 R7 R8 R9 R10 R11].
+    assert (Hw : m_w m0 = m_w m) by (unfold m0; destruct (ev_time e =? clock s); reflexivity).
+    constructor.
+    - unfold m0. destruct (ev_time e =? clock s); auto.
+    - unfold m0. destruct (ev_time e =? clock s); auto.
+    - unfold m0. destruct (ev_time e =? clock s); auto.
+    - unfold m0. destruct (ev_time e =? clock s); auto.
+    - unfold m0. destruct (ev_time e =? clock s); auto.
+    - unfold s2, s1. ssimpl. destruct (ev_time e =? clock s); ssimpl; exact R6.
+    - unfold s2, s1. ssimpl. destruct (ev_time e =? clock s); ssimpl; exact R7.
+    - unfold s2, s1. ssimpl. rewrite Hw. destruct (ev_time e =? clock s); ssimpl; exact R8.
+    - unfold s2. ssimpl. unfold m0. destruct (Z.eqb_spec (ev_time e) (clock s)) as [E|E].
+      + rewrite E. exact R9.
+      + apply le_last_some. lia.
+    - unfold s2. ssimpl. rewrite Hw, W0.
+      replace (pend s1) with r by (unfold s1; ssimpl; destruct (ev_time e =? clock s); reflexivity).
+      eapply PI_weaken; [exact Hpi'|]. destruct (is_warm e); lia.
+    - intros _ _. unfold s2. ssimpl.
+      replace (bound s1) with (bound s) by (unfold s1; ssimpl; destruct (ev_time e =? clock s); reflexivity).
+      exact Hbd. }
+  assert (Hw0 : is_warm e = true -> clock s2 = m_w m0 /\ m_warm m0 = false).
+  { intros E. destruct (Hwm E) as [E1 E2]. unfold s2. ssimpl.
+    assert (m_w m0 = m_w m /\ m_warm m0 = m_warm m) as [-> ->]
+      by (unfold m0; destruct (ev_time e =? clock s); split; reflexivity).
+    split; [exact E1|]. unfold warm_left in E2. destruct (m_warm m); [lia|reflexivity]. }
+  assert (Hw1 : is_warm e = true -> PI (clock s2) (m_w m0) 0 (pend s2)).
+  { intros E. destruct (Hwm E) as [E1 E2]. unfold s2. ssimpl.
+    replace (pend s1) with r by (unfold s1; ssimpl; destruct (ev_time e =? clock s); reflexivity).
+    replace (m_w m0) with (m_w m) by (unfold m0; destruct (ev_time e =? clock s); reflexivity).
+    rewrite E in Hpi'. eapply PI_weaken; [exact Hpi'|]. unfold warm_left. destruct (m_warm m); lia. }
+  assert (Hmd : InRun <> InConstruct) by discriminate.
+  destruct (exec_event_RI true InRun p s2 e m0 Hmd R2 Hw0 Hw1) as [l [m1 [L1 [L2 [L3 [L4 [_ L5]]]]]]].
+  unfold take_event. fold s1. fold s2.
+  destruct (exec_event InRun p s2 e) as [s3 failed]. cbn [fst] in *.
+  assert (C2 : clock s2 = ev_time e) by reflexivity.
+  assert (T2 : trace s2 = trace s).
+  { unfold s2, s1. ssimpl. destruct (ev_time e =? clock s); reflexivity. }
+  exists l, m1.
+  assert (Fin : mon_feed m (tc_part s e ++ l) = Some m1) by (rewrite mon_feed_app, F0; exact L2).
+  rewrite C2 in *. rewrite T2 in L4. rewrite N2 in L1.
+  destruct failed; [destruct (strat s3)|]; ssimpl;
+    (split; [exact L1|split; [exact Fin|split; [|split; [exact L4|exact L5]]]]);
+    try exact L3.
+  apply set_stopping_RI. exact L3.
+Qed.
+
+Lemma stop_at_bound_RI s m :
+  RI true s m -> running s = true ->
+  (pend s = [] \/ exists e r, pend s = e :: r /\ beyond s e = true) ->
+  ntfs (stop_at_bound s) = ntfs s /\ RI true (stop_at_bound s) m.
+Proof.
+  intros [R1 R2 R3 R4 R5 R6 R7 R8 R9 R10 R11] Hr Hp.
+  assert (Hcb : clock s <= bound s) by (apply R11; auto).
+  assert (Hpi : PI (bound s) (m_w m) (warm_left m) (pend s)).
+  { destruct Hp as [Hp|[e [r [Hp Hb]]]].
+    - rewrite Hp. apply PI_nil.
+    - rewrite Hp in *. destruct R10 as [P1 P2 P3 P4]. constructor; auto.
+      assert (He : bound s <= ev_time e).
+      { unfold beyond in Hb. apply orb_true_iff in Hb. destruct Hb as [Hb|Hb].
+        - destruct (Z.gtb_spec (ev_time e) (bound s)); [lia|discriminate].
+        - apply andb_true_iff in Hb. destruct Hb as [Hb _]. apply Z.eqb_eq in Hb. lia. }
+      inversion P1 as [|? ? Hs Hf]; subst. constructor; [exact He|].
+      eapply Forall_impl; [|exact Hf]. unfold tle. intros a Ha. lia. }
+  unfold stop_at_bound.
+  destruct (bound s >=? end_time s); ssimpl; (split; [reflexivity|]);
+    constructor; ssimpl; auto;
+    try (eapply le_last_trans; eassumption);
+    try (intros _ H; unfold running in H; ssimpl; discriminate).
+Qed.
+
+Lemma flag_RI nb s m : RI nb s m -> RI nb (raise_flag s) m.
+Proof.
+  intros [R1 R2 R3 R4 R5 R6 R7 R8 R9 R10 R11]. constructor; ssimpl; auto.
+Qed.
+
+Lemma run_loop_RI fuel p : forall s m,
+  RI true s m ->
+  exists l m', ntfs (run_loop fuel p s) = rev l ++ ntfs s /\ mon_feed m l = Some m' /\
+               RI true (run_loop fuel p s) m'.
+Proof.
+  induction fuel as [|f IH]; intros s m R; cbn [run_loop].
+  - exists [], m. destruct (running s); (split; [reflexivity|split; [reflexivity|]]); auto.
+    apply flag_RI. exact R.
+  - destruct (running s) eqn:Hr; [|exists [], m; auto].
+    destruct (pend s) as [|e r] eqn:Hp.
+    + destruct (stop_at_bound_RI s m R Hr (or_introl Hp)) as [N R'].
+      exists [], m. rewrite N. auto.
+    + destruct (beyond s e) eqn:Hb.
+      * destruct (stop_at_bound_RI s m R Hr) as [N R'].
+        { right. exists e, r. auto. }
+        exists [], m. rewrite N. auto.
+      * destruct (take_event_RI p s e r m R Hp Hb) as [l1 [m1 [L1 [L2 [L3 _]]]]].
+        destruct (IH _ _ L3) as [l2 [m2 [K1 [K2 K3]]]].
+        exists ((tc_part s e ++ l1) ++ l2), m2. split; [|split; [|exact K3]].
+        -- rewrite K1, L1. rewrite !rev_app_distr, !app_assoc. reflexivity.
+        -- rewrite mon_feed_app, L2. exact K2.
+Qed.
+
+(* ------------------------------------------------------------------ *)
+(** * Invariant of quiescent states and its preservation by every command *)
+
+Record QI (s : sim) (m : mon) : Prop := mkQI {
+  qi_q : qinv s = true;
+  qi_agree : mon_agrees m (rs s) (ps s) = true;
+  qi_quiet : mon_quiet m = true;
+  qi_rep : rs_initialized (rs s) = true -> exists r, rep s = Some r /\ m_w m = r_warm r;
+  qi_last : le_last (m_last m) (clock s) = true;
+  qi_pi : rs_initialized (rs s) = true -> PI (clock s) (m_w m) (warm_left m) (pend s)
+}.
+
+Lemma QI_init st : QI (init_sim st) mon_dead.
+Proof. constructor; cbn; auto; discriminate. Qed.
+
+(* a stopped run whose replication is STARTED or ENDING: what the run thread
+   does before it waits again (or terminates) *)
+Record SI (s : sim) (m : mon) : Prop := mkSI {
+  si_live : m_live m = true;
+  si_sr : m_sr m = true;
+  si_run : m_run m = false;
+  si_st : m_starting m = false;
+  si_er : m_er m = false;
+  si_rs : rs s = RStopped;
+  si_ps : ps s = PStarted \/ ps s = PEnding;
+  si_w : worker s = WAlive;
+  si_rep : exists r, rep s = Some r /\ m_w m = r_warm r;
+  si_last : le_last (m_last m) (clock s) = true;
+  si_pi : PI (clock s) (m_w m) (warm_left m) (pend s)
+}.
+
+Lemma worker_ending_QI s m :
+  SI s m ->
+  exists l m', ntfs (worker_ending s) = rev l ++ ntfs s /\ mon_feed m l = Some m' /\
+               QI (worker_ending s) m'.
+Proof.
+  intros [S1 S2 S3 S4 S5 S6 S7 S8 S9 S10 S11]. unfold worker_ending.
+  destruct S7 as [S7|S7]; rewrite S7.
+  - exists [], m. split; [reflexivity|]. split; [reflexivity|].
+    constructor; auto.
+    + unfold qinv. rewrite S6, S7, S8. reflexivity.
+    + unfold mon_agrees. rewrite S1, S2, S5, S6, S7. reflexivity.
+    + unfold mon_quiet. rewrite S3, S4. reflexivity.
+  - exists [NEndRepl (clock s)], (mkMon true (m_w m) true false false (m_warm m) true (Some (clock s))).
+    split; [reflexivity|]. split.
+    + cbn [mon_feed]. unfold mon_step. rewrite S1, S2, S3, S4, S5, S10. reflexivity.
+    + constructor; ssimpl; auto.
+      apply Z.leb_le. lia.
+Qed.
+
+Lemma RI_stop_SI nb b m :
+  RI nb b m ->
+  let c := set_rs RStopped (emit (NStop (clock b)) b) in
+  let m' := mkMon true (m_w m) true false false (m_warm m) false (Some (clock b)) in
+  mon_feed m [NStop (clock b)] = Some m' /\ SI c m'.
+Proof.
+  intros [R1 R2 R3 R4 R5 R6 R7 R8 R9 R10 R11]. cbn zeta. split.
+  - cbn [mon_feed]. unfold mon_step. rewrite R1, R2, R3, R4, R5, R9. reflexivity.
+  - constructor; ssimpl; auto. apply Z.leb_le. lia.
+Qed.
+
+(* the run thread after a wake-up, from a state that has passed the checks of
+   start / run_up_to and has notified STARTING *)
+Lemma worker_run_started fuel p s m :
+  worker s = WAlive -> ps s = PStarted ->
+  RI true (set_rs RStarted (emit (NStart (clock s)) s))
+          (mkMon true (m_w m) true true false (m_warm m) false (Some (clock s))) ->
+  mon_step m (NStart (clock s)) = Some (mkMon true (m_w m) true true false (m_warm m) false (Some (clock s))) ->
+  exists l m', ntfs (worker_run fuel p s) = rev l ++ ntfs s /\ mon_feed m l = Some m' /\
+               QI (worker_run fuel p s) m'.
+Proof.
+  intros Hw Hps R Hm. unfold worker_run. rewrite Hw, Hps.
+  set (a := set_rs RStarted (emit (NStart (clock s)) s)) in *.
+  set (ma := mkMon true (m_w m) true true false (m_warm m) false (Some (clock s))) in *.
+  destruct (run_loop_RI fuel p a ma R) as [l1 [m1 [L1 [L2 L3]]]].
+  set (b := run_loop fuel p a) in *.
+  destruct (RI_stop_SI true b m1 L3) as [F2 S2].
+  set (c := set_rs RStopped (emit (NStop (clock b)) b)) in *.
+  destruct (worker_ending_QI c _ S2) as [l3 [m3 [K1 [K2 K3]]]].
+  exists ((NStart (clock s) :: l1) ++ NStop (clock b) :: l3), m3.
+  split; [|split; [|exact K3]].
+  - rewrite K1. unfold c. ssimpl. rewrite L1. unfold a. ssimpl.
+    rewrite rev_app_distr. cbn [rev]. rewrite <- !app_assoc. cbn [app]. reflexivity.
+  - rewrite mon_feed_app. cbn [mon_feed]. rewrite Hm, L2.
+    cbn [mon_feed] in F2. destruct (mon_step m1 (NStop (clock b))) as [mx|]; [|discriminate].
+    inversion F2; subst mx. exact K2.
 Qed.
